@@ -259,7 +259,7 @@ def rule_G3(prog):
                     if any(h in m.reach_from([t2["target"]]) and m.dominates(h, bb) and h != bb and not m.dominates(h, b2)
                            for h, _ in m.loops()):
                         continue
-                    amt = strip(m.resolve_operand(t2["args"][1]))
+                    amt = strip(m.expand(m.resolve_operand(t2["args"][1]), depth=3))
                     src = None
                     if isinstance(amt, tuple) and amt and amt[0] == "call" and amt[1].endswith("ExactSizeIterator::len"):
                         rng = strip(amt[2][0])
